@@ -30,6 +30,9 @@ func init() {
 
 func runC15(c *engine.Ctx, tier string) {
 	listVisitsEveryCollection(c)
+	for _, rel := range storePkgs {
+		closeOnEveryExit(c, "C15.18/"+strings.TrimPrefix(rel, "pkg/store/"), rel)
+	}
 	loopVarAddress(c)
 	identityComponents(c)
 	conditionalUpdates(c)
@@ -1431,4 +1434,70 @@ func fromStreamNext(info *types.Info, body *ast.BlockStmt, v types.Object) bool 
 		return true
 	})
 	return found
+}
+
+// closeOnEveryExit: C15.18 (finding F69). A watch goroutine that closes the subscriber's channel on some of
+// its exits closes it on all of them: an exit without close leaves the subscriber waiting for ever on a
+// watch that no longer exists (contradiction rule: the other exits say what the protocol is).
+func closeOnEveryExit(c *engine.Ctx, id, rel string) {
+	o := c.Custom(id, "K-must(close on exit)", "in a goroutine started by Store.Watch: if some exit path closes the subscriber's channel (a free variable or parameter of channel type named by the close), every exit path does",
+		"a watcher is shown the latest state or told that the watch ended; cancelling never leaves a subscriber hanging")
+	defer o.Done(0)
+	paths, err := storePaths(c, rel)
+	if err != nil {
+		o.Undecided(rel, err.Error())
+		return
+	}
+	type exitInfo struct {
+		closed bool
+		pos    token.Pos
+		p      *engine.Path
+	}
+	byLit := map[*ast.FuncLit][]exitInfo{}
+	chanOf := map[*ast.FuncLit]string{}
+	for _, p := range paths {
+		if p.Lit == nil || !strings.Contains(p.Root.Name(), "Store.Watch") {
+			continue
+		}
+		last := &p.Events[len(p.Events)-1]
+		if last.Kind != engine.EvReturn {
+			continue
+		}
+		ch := ""
+		for i := range p.Events {
+			if e := &p.Events[i]; e.Kind == engine.EvCall && e.CalleeName == "close" && len(e.Args) == 1 && strings.HasPrefix(e.Args[0], "^") {
+				ch = e.Args[0]
+			}
+		}
+		if ch != "" {
+			chanOf[p.Lit] = ch
+		}
+		byLit[p.Lit] = append(byLit[p.Lit], exitInfo{closed: ch != "", pos: last.Pos, p: p})
+	}
+	for lit, exits := range byLit {
+		ch := chanOf[lit]
+		if ch == "" {
+			continue // a goroutine that never closes anything: another protocol (drain, dispatcher)
+		}
+		o.Site(c.P.Pos(lit.Pos()) + " goroutine closing " + ch)
+		reported := map[string]bool{}
+		for _, x := range exits {
+			o.Eval(1)
+			if !x.closed {
+				// the position of the exit: the last return statement met on the path inside the literal
+				pos := c.P.Pos(x.pos)
+				for i := len(x.p.Events) - 1; i >= 0; i-- {
+					if e := &x.p.Events[i]; e.Kind == engine.EvCond || e.Kind == engine.EvCall {
+						pos = c.P.Pos(e.Pos)
+						break
+					}
+				}
+				if !reported[pos] {
+					reported[pos] = true
+					o.Fail(&engine.Violation{Key: x.p.Root.Name() + "|exit without close of " + ch, Pos: pos, Func: x.p.Root.Name(),
+						Msg: "this exit of the watch goroutine does not close " + ch + " although its other exits do: the subscriber waits for ever on a watch that has ended", Found: c.RenderConds(engine.CondsBefore(x.p, len(x.p.Events)-1))})
+				}
+			}
+		}
+	}
 }
